@@ -57,26 +57,27 @@ theorem memSubDisk_of_sim {a b : State} (h : Sim a b) (hm : MemSubDisk a) : MemS
   rw [h.disk]
   exact hm s k v (h.mem _ _ hv)
 
-theorem sim_hashWith {a b : State} (h : Sim a b) (hm : MemSubDisk a) (sess : Option Sess) (cls : Cls) (p : Path) :
-    (hashWith a sess cls p).2 = (hashWith b sess cls p).2 ∧
-    Sim (hashWith a sess cls p).1 (hashWith b sess cls p).1 ∧
-    MemSubDisk (hashWith a sess cls p).1 := by
+theorem sim_hashWith {a b : State} (h : Sim a b) (hm : MemSubDisk a) (sess : Option Sess) (cls : Cls) (ps : List Path) :
+    (hashWith a sess cls ps).2 = (hashWith b sess cls ps).2 ∧
+    Sim (hashWith a sess cls ps).1 (hashWith b sess cls ps).1 ∧
+    MemSubDisk (hashWith a sess cls ps).1 := by
   obtain ⟨afs, adisk, amem⟩ := a
   obtain ⟨bfs, bdisk, bmem⟩ := b
   obtain ⟨hfs, hdisk, hmem⟩ := h
   simp only at hfs hdisk hmem
   subst hfs hdisk
-  unfold hashWith
+  unfold hashWith hashWithK keyOf
   simp only
-  cases hp : bfs p with
+  cases hp : readAll bfs ps with
   | none => exact ⟨rfl, ⟨rfl, rfl, hmem⟩, hm⟩
-  | some cm =>
-    obtain ⟨c, m⟩ := cm
+  | some cms =>
     simp only
+    generalize cms.map Prod.snd = m
+    generalize cms.map Prod.fst = c
     cases sess with
     | none =>
       simp only [Option.bind_none]
-      cases hd : bdisk.lookup ⟨cls, p, m⟩ with
+      cases hd : bdisk.lookup ⟨cls, ps, m⟩ with
       | some v => exact ⟨rfl, ⟨rfl, rfl, hmem⟩, hm⟩
       | none =>
         refine ⟨rfl, ⟨rfl, rfl, hmem⟩, ?_⟩
@@ -84,18 +85,18 @@ theorem sim_hashWith {a b : State} (h : Sim a b) (hm : MemSubDisk a) (sess : Opt
         have h0 := hm s k v hv
         simp only at h0 hv ⊢
         rw [List.lookup_cons]
-        by_cases hk : (k == (⟨cls, p, m⟩ : Key)) = true
-        · have : k = ⟨cls, p, m⟩ := by simpa using hk
+        by_cases hk : (k == (⟨cls, ps, m⟩ : Key)) = true
+        · have : k = ⟨cls, ps, m⟩ := by simpa using hk
           subst this
           rw [hd] at h0; cases h0
         · simp only [hk]; exact h0
     | some s =>
       simp only [Option.bind_some]
-      cases ha : amem.lookup (s, ⟨cls, p, m⟩) with
+      cases ha : amem.lookup (s, ⟨cls, ps, m⟩) with
       | some v =>
         have hdv := hm s _ v ha
         simp only at hdv
-        cases hb : bmem.lookup (s, ⟨cls, p, m⟩) with
+        cases hb : bmem.lookup (s, ⟨cls, ps, m⟩) with
         | some v' =>
           have := hmem _ _ hb
           rw [ha] at this
@@ -105,34 +106,34 @@ theorem sim_hashWith {a b : State} (h : Sim a b) (hm : MemSubDisk a) (sess : Opt
           simp only [hdv]
           exact ⟨trivial, ⟨rfl, rfl, hmem⟩, hm⟩
       | none =>
-        have hb : bmem.lookup (s, ⟨cls, p, m⟩) = none := by
-          cases hb : bmem.lookup (s, ⟨cls, p, m⟩) with
+        have hb : bmem.lookup (s, ⟨cls, ps, m⟩) = none := by
+          cases hb : bmem.lookup (s, ⟨cls, ps, m⟩) with
           | none => rfl
           | some v' => have := hmem _ _ hb; rw [ha] at this; cases this
         simp only [hb]
-        cases hd : bdisk.lookup ⟨cls, p, m⟩ with
+        cases hd : bdisk.lookup ⟨cls, ps, m⟩ with
         | some v => exact ⟨rfl, ⟨rfl, rfl, hmem⟩, hm⟩
         | none =>
           refine ⟨rfl, ⟨rfl, rfl, ?_⟩, ?_⟩
           · intro x v hv
             simp only at hv ⊢
             rw [List.lookup_cons] at hv ⊢
-            by_cases hk : (x == (s, (⟨cls, p, m⟩ : Key))) = true
+            by_cases hk : (x == (s, (⟨cls, ps, m⟩ : Key))) = true
             · simp only [hk] at hv ⊢; exact hv
             · simp only [hk] at hv ⊢; exact hmem _ _ hv
           · intro s' k v hv
             simp only at hv ⊢
             rw [List.lookup_cons] at hv ⊢
-            by_cases hk : ((s', k) == (s, (⟨cls, p, m⟩ : Key))) = true
+            by_cases hk : ((s', k) == (s, (⟨cls, ps, m⟩ : Key))) = true
             · simp only [hk] at hv
-              have : (s', k) = (s, (⟨cls, p, m⟩ : Key)) := by simpa using hk
+              have : (s', k) = (s, (⟨cls, ps, m⟩ : Key)) := by simpa using hk
               cases this
               simpa using hv
             · simp only [hk] at hv
               have h0 := hm s' k v hv
               simp only at h0
-              by_cases hk2 : (k == (⟨cls, p, m⟩ : Key)) = true
-              · have : k = ⟨cls, p, m⟩ := by simpa using hk2
+              by_cases hk2 : (k == (⟨cls, ps, m⟩ : Key)) = true
+              · have : k = ⟨cls, ps, m⟩ := by simpa using hk2
                 subst this
                 rw [hd] at h0; cases h0
               · simp only [hk2]; exact h0
@@ -141,8 +142,8 @@ theorem sim_hashWith {a b : State} (h : Sim a b) (hm : MemSubDisk a) (sess : Opt
 theorem sim_step {a b : State} (h : Sim a b) (hm : MemSubDisk a) (op : Op) (hc : op.isCleanUp = false) :
     (step a op).2 = (step b op).2 ∧ Sim (step a op).1 (step b op).1 ∧ MemSubDisk (step a op).1 := by
   cases op with
-  | hash s cls p => exact sim_hashWith h hm _ _ _
-  | hashFresh cls p => exact sim_hashWith h hm _ _ _
+  | hash s cls ps => exact sim_hashWith h hm _ _ _
+  | hashFresh cls ps => exact sim_hashWith h hm _ _ _
   | cleanUp vs => simp [Op.isCleanUp] at hc
   | newProcess s =>
     refine ⟨rfl, ⟨h.fs, h.disk, ?_⟩, ?_⟩
